@@ -19,13 +19,14 @@ type ctxKey string
 
 // Built - a real program definition built from a Cfg through the public API.
 type Built struct {
-	Cfg    *Cfg
-	Root   *getoptions.GetOpt
-	GOpts  []*getoptions.GetOpt // per node (nil for help nodes, which HelpCommand creates)
-	Ptrs   []interface{}        // per option: pointer to the variable holding its value
-	Ran    []RanRes
-	CtxTag interface{}
-	envSet []string
+	Cfg     *Cfg
+	Root    *getoptions.GetOpt
+	GOpts   []*getoptions.GetOpt // per node (nil for help nodes, which HelpCommand creates)
+	Ptrs    []interface{}        // per option: pointer to the variable holding its value
+	Ran     []RanRes
+	CtxTag  interface{}
+	envSet  []string
+	SetErrs []string // error kinds of the definition's SetValue calls
 }
 
 func (c *Cfg) children(n int) []int {
@@ -141,6 +142,22 @@ func Build(cfg *Cfg) *Built {
 			fns = append(fns, root.Description(FromAtoms(o.Desc)))
 		}
 		root.HelpCommand(FromAtoms(o.Name), fns...)
+	}
+	// the program's own SetValue calls, after everything is defined
+	b.SetErrs = []string{}
+	for _, st := range cfg.Sets {
+		var err error
+		if st.Opt == 0 {
+			err = root.SetValue("verif-not-declared", StringsOf(st.Vals)...)
+		} else {
+			o := cfg.Opts[st.Opt-1]
+			err = b.GOpts[o.Node-1].SetValue(FromAtoms(o.Name), StringsOf(st.Vals)...)
+		}
+		kind := ClassifyErr(err).Kind
+		if errors.Is(err, getoptions.ErrorNotFound) {
+			kind = "notfound"
+		}
+		b.SetErrs = append(b.SetErrs, kind)
 	}
 	return b
 }
